@@ -323,5 +323,6 @@ func runC12(c *checker, r *rng.R) {
 	}
 	c.flush()
 	runC12Server(c, r)
+	c.flush()
 	c.rep.Rule = "envelopes: names 1..2^16 bytes (non-UTF8, ':'-multiplexed), types 0..127, seqids at int32 boundaries, random struct bodies × 3 framings × {DecodeRequest, ReadRequest non-seekable (every other one with a Seek method that always fails, like a pipe) under random segmentation incl. 1-byte/zero-length first reads, ReadRequest seekable} × right/wrong expected type, replies through both responder APIs; plus mutated envelopes and random bytes for classification agreement; plus internal/envelope.Server over internal/multiplex (through the verif hook): enveloped Calls in both framings to known / unknown services and methods and a failing handler — the answer must echo name and sequence id, be a Reply with the handler's value or an Exception; the same through envelope.Client + multiplex.Client; responses retained across later requests and a server shared by 8 goroutines (a response must stay what it was); every case non-trivial; distinct by canonical text"
 }
